@@ -487,12 +487,14 @@ void do_op(Ctx& c, int idx, const Op& op)
   } else if (k == "asuspend") {
     if (auto* s = need_slot(a[0])) {
       exc = guarded([&] { s->act->suspend(); });
-      obs_act(r, *s);
+      if (!(a.size() > 1 && a[1] == "noobs")) // (reading the remaining work forces a lazy update: an observation that
+        obs_act(r, *s);                       //  repairs stale bookkeeping must be optional)
     }
   } else if (k == "aresume") {
     if (auto* s = need_slot(a[0])) {
       exc = guarded([&] { s->act->resume(); });
-      obs_act(r, *s);
+      if (!(a.size() > 1 && a[1] == "noobs"))
+        obs_act(r, *s);
     }
   } else if (k == "obs_act") {
     if (auto* s = need_slot(a[0]))
